@@ -15,6 +15,10 @@ func init() {
 }
 
 func gen(rng *rand.Rand, tier core.Tier, emit core.Emit) {
+	// the socket side: which source address the real UDP server hands to the handler (measurement, see udpglue.go)
+	for _, k := range []string{"2", "3", "50", "400", "1500"} {
+		emit("udpglue", k)
+	}
 	n, maxLen := 300, 40
 	if tier == core.Thorough {
 		n, maxLen = 600, 200
@@ -77,6 +81,13 @@ func gen(rng *rand.Rand, tier core.Tier, emit core.Emit) {
 }
 
 func exec(op string, args []string) []string {
+	if op == "udpglue" {
+		var out []string
+		if txt, ok := core.Guard(func() { out = runUDPGlue(args) }); !ok {
+			return []string{fmt.Sprintf("harness-panic:%s", txt)}
+		}
+		return out
+	}
 	if op != "hist" {
 		return []string{"bad-op"}
 	}
